@@ -17,6 +17,12 @@ type RetCase struct {
 	// Guards hold on this way of returning: the guards of the return's block and
 	// of every block the case was split at.
 	Guards []Guard
+	// Via lists, per result, the merged values (phis) the value was selected from: a test of one of them on
+	// the way to the return is a test of the value itself on this way.
+	Via [][]ssa.Value
+	// Spilled names, per result, the local variable the value was read from (a named result kept in
+	// memory because of a defer), or nil.
+	Spilled []*ssa.Alloc
 }
 
 func (c *RetCase) addGuards(b *ssa.BasicBlock) {
@@ -47,10 +53,173 @@ func ReturnCases(fn *ssa.Function) []RetCase {
 			if c.At != nil && c.At != ret.Block() {
 				c.addGuards(c.At)
 			}
-			out = append(out, expandPhis(c, 0)...)
+			for _, e := range expandPhis(c, 0) {
+				if !e.contradicted() {
+					out = append(out, e)
+				}
+			}
 		}
 	}
 	return out
+}
+
+// GuardOnSpilled reports whether the guard is a nil test of a load of the local variable that result k
+// was read from, made after the value of this case was stored (so it is a test of this case's value), and
+// if so whether it says non-nil.
+func (c *RetCase) GuardOnSpilled(g Guard, k int) (nonNil, ok bool) {
+	if k >= len(c.Spilled) || c.Spilled[k] == nil {
+		return false, false
+	}
+	b, isB := g.Cond.(*ssa.BinOp)
+	if !isB || (b.Op != token.EQL && b.Op != token.NEQ) {
+		return false, false
+	}
+	var other ssa.Value
+	if isNilConst(b.Y) {
+		other = b.X
+	} else if isNilConst(b.X) {
+		other = b.Y
+	}
+	u, isU := other.(*ssa.UnOp)
+	if !isU || u.Op != token.MUL || u.X != ssa.Value(c.Spilled[k]) {
+		return false, false
+	}
+	// the tested load must read what this case returns: the only stores that reach it are this case's value
+	rs := ReachingStores(c.Spilled[k], u)
+	for _, r := range rs {
+		if r != c.Vals[k] {
+			// another value can be in the variable at the test: it is a test of this case's value only if that
+			// other store cannot be the last one before the return on this case's way; approximated by requiring
+			// that the case's own store comes after the other one on every path (same block or dominated)
+			cv, isI := c.Vals[k].(ssa.Instruction)
+			ov, isO := r.(ssa.Instruction)
+			if r == nil && isI {
+				continue // the zero value is overwritten by the case's store
+			}
+			if !isI || !isO || !ov.Block().Dominates(cv.Block()) {
+				return false, false
+			}
+		}
+	}
+	return g.True == (b.Op == token.NEQ), true
+}
+
+// contradicted: a test on the way to the return says the variable a nil value was read from is non-nil.
+func (c *RetCase) contradicted() bool {
+	for k, v := range c.Vals {
+		if k >= len(c.Spilled) || c.Spilled[k] == nil {
+			continue
+		}
+		if !(v == nil || isNilConst(v)) {
+			continue
+		}
+		for _, g := range c.Guards {
+			b, isB := g.Cond.(*ssa.BinOp)
+			if !isB || (b.Op != token.EQL && b.Op != token.NEQ) {
+				continue
+			}
+			var other ssa.Value
+			if isNilConst(b.Y) {
+				other = b.X
+			} else if isNilConst(b.X) {
+				other = b.Y
+			}
+			u, isU := other.(*ssa.UnOp)
+			if !isU || u.Op != token.MUL || u.X != ssa.Value(c.Spilled[k]) {
+				continue
+			}
+			if g.True == (b.Op == token.NEQ) {
+				// the variable was non-nil when tested; if nothing is stored to it between the test and the
+				// return, a nil value cannot be what is returned
+				stored := false
+				for _, ref := range *c.Spilled[k].Referrers() {
+					if st, ok := ref.(*ssa.Store); ok && st.Addr == ssa.Value(c.Spilled[k]) && CanReach(u, st) && CanReach(st, c.Ret) && reachAvoidingInstr(st, c.Ret, u) {
+						if ld, isLd := st.Val.(*ssa.UnOp); isLd && ld.Op == token.MUL && ld.X == ssa.Value(c.Spilled[k]) {
+							continue // `return ..., err` stores the variable into itself
+						}
+						stored = true
+					}
+				}
+				if !stored {
+					return true
+				}
+			}
+		}
+	}
+	return false
+}
+
+// reachAvoidingInstr: a path from a to b that does not execute avoid.
+func reachAvoidingInstr(a, b, avoid ssa.Instruction) bool {
+	if a.Block() == avoid.Block() {
+		ia, iv := -1, -1
+		for i, x := range a.Block().Instrs {
+			if x == a {
+				ia = i
+			}
+			if x == avoid {
+				iv = i
+			}
+		}
+		if iv > ia {
+			return a.Block() == b.Block() && func() bool {
+				for i, x := range a.Block().Instrs {
+					if x == b {
+						return i > ia && i < iv
+					}
+				}
+				return false
+			}()
+		}
+	}
+	seen := map[*ssa.BasicBlock]bool{}
+	stack := append([]*ssa.BasicBlock{}, a.Block().Succs...)
+	if a.Block() == b.Block() {
+		for i, x := range a.Block().Instrs {
+			_ = i
+			if x == a {
+				for _, y := range a.Block().Instrs[i+1:] {
+					if y == avoid {
+						break
+					}
+					if y == b {
+						return true
+					}
+				}
+			}
+		}
+	}
+	for len(stack) > 0 {
+		x := stack[len(stack)-1]
+		stack = stack[:len(stack)-1]
+		if seen[x] {
+			continue
+		}
+		seen[x] = true
+		if x == b.Block() {
+			hit := true
+			if avoid.Block() == x {
+				for _, y := range x.Instrs {
+					if y == avoid {
+						hit = false
+						break
+					}
+					if y == b {
+						break
+					}
+				}
+			}
+			if hit {
+				return true
+			}
+			continue
+		}
+		if x == avoid.Block() {
+			continue
+		}
+		stack = append(stack, x.Succs...)
+	}
+	return false
 }
 
 // spilledCases resolves results that are loads of local result variables
@@ -78,11 +247,12 @@ func spilledCases(ret *ssa.Return) []RetCase {
 	seen := map[string]bool{}
 	var walk func(b *ssa.BasicBlock, from int, p partial, depth int)
 	finish := func(p partial) {
-		c := RetCase{Ret: ret, Vals: append([]ssa.Value{}, ret.Results...), At: p.at}
+		c := RetCase{Ret: ret, Vals: append([]ssa.Value{}, ret.Results...), At: p.at, Spilled: make([]*ssa.Alloc, len(ret.Results))}
 		key := ""
 		for i := range ret.Results {
-			if _, isAlloc := allocs[i]; isAlloc {
+			if a, isAlloc := allocs[i]; isAlloc {
 				c.Vals[i] = p.vals[i] // nil: zero value
+				c.Spilled[i] = a
 			}
 			if c.Vals[i] != nil {
 				key += c.Vals[i].Name() + "@"
@@ -189,13 +359,13 @@ func expandPhis(c RetCase, depth int) []RetCase {
 			continue
 		}
 		var phi *ssa.Phi
-		switch x := g.Cond.(type) {
+		switch x := Resolve(g.Cond).(type) {
 		case *ssa.Phi:
 			phi = x
 		case *ssa.BinOp:
-			if p, ok := x.X.(*ssa.Phi); ok {
+			if p, ok := Resolve(x.X).(*ssa.Phi); ok {
 				phi = p
-			} else if p, ok := x.Y.(*ssa.Phi); ok {
+			} else if p, ok := Resolve(x.Y).(*ssa.Phi); ok {
 				phi = p
 			}
 		}
@@ -217,12 +387,29 @@ func expandPhis(c RetCase, depth int) []RetCase {
 		if infeasible[p] {
 			continue
 		}
-		nc := RetCase{Ret: c.Ret, Vals: make([]ssa.Value, len(c.Vals)), At: p, Guards: append([]Guard{}, c.Guards...)}
+		nc := RetCase{Ret: c.Ret, Vals: make([]ssa.Value, len(c.Vals)), At: p, Guards: append([]Guard{}, c.Guards...), Via: make([][]ssa.Value, len(c.Vals)), Spilled: c.Spilled}
+		for k := range c.Vals {
+			if k < len(c.Via) {
+				nc.Via[k] = append([]ssa.Value{}, c.Via[k]...)
+			}
+		}
 		nc.addGuards(p)
+		// the way in may itself be one side of a test at the end of p
+		if len(p.Instrs) > 0 && len(p.Succs) == 2 && p.Succs[0] != p.Succs[1] {
+			if br, ok := p.Instrs[len(p.Instrs)-1].(*ssa.If); ok {
+				pol := p.Succs[0] == blk
+				cnd, neg := StripNot(br.Cond)
+				if neg {
+					pol = !pol
+				}
+				nc.Guards = append(nc.Guards, Guard{Cond: cnd, True: pol, If: br})
+			}
+		}
 		for k, v := range c.Vals {
 			nc.Vals[k] = v
 			if phi, ok := v.(*ssa.Phi); ok && phi.Block() == blk && i < len(phi.Edges) {
 				nc.Vals[k] = phi.Edges[i]
+				nc.Via[k] = append(nc.Via[k], phi)
 			}
 		}
 		// a back edge would feed the phi itself again
@@ -278,7 +465,7 @@ func resolveLoads(cases []RetCase) []RetCase {
 					continue
 				}
 				for _, s := range stores {
-					nc := RetCase{Ret: c.Ret, Vals: append([]ssa.Value{}, c.Vals...), At: c.At, Guards: c.Guards}
+					nc := RetCase{Ret: c.Ret, Vals: append([]ssa.Value{}, c.Vals...), At: c.At, Guards: c.Guards, Spilled: c.Spilled, Via: c.Via}
 					nc.Vals[i] = s
 					if in, ok := s.(ssa.Instruction); ok && len(stores) > 1 && in.Block() != nil {
 						nc.At = in.Block()
